@@ -18,6 +18,10 @@ from .world import fingerprint, fp_container, fp_plate, fp_diff
 STEP_CALLS = ('create_container', 'create_solution', 'create_solution_from', 'transfer', 'remove', 'dilute', 'fill_to')
 
 
+def fp_container_contents(c):
+    return tuple((s.name, s._type, repr(a)) for s, a in c.contents.items()), repr(c.volume)
+
+
 class LifeCycle:
     """Reference state machine of DESIGN appendix B."""
 
@@ -73,6 +77,7 @@ class RecipeRun:
         self.excused = set()    # known-finding ids whose trigger matched in this run (run-level excuses)
         self.held = []          # slices the user built and handed to recipe calls: (label, object, fingerprint)
         self.held_info = []     # (plate name, selector) of each
+        self.arg_lists = []     # lists handed to recipe calls (the recipe keeps them until bake): (label, list, copy)
         self.near_capacity_fill = False
         self.near_boundary_transfer = False
         self.min_margin_rel = F(1)
@@ -498,11 +503,11 @@ class RecipeRun:
             if c.get('cap') is not None:
                 kwargs['max_volume'] = c['cap']
             if c.get('contents'):
-                kwargs['initial_contents'] = [(W.rsubs[s], q) for s, q in c['contents']]
+                kwargs['initial_contents'] = self.keep_list([(W.rsubs[s], q) for s, q in c['contents']], 'initial_contents')
             return lambda: R.create_container(c['name'], **kwargs)
         if k == 'create_solution':
             solutes = [W.rsubs[n] for n in c['solutes']]
-            sol_arg = solutes[0] if len(solutes) == 1 and not c.get('aslist') else solutes
+            sol_arg = solutes[0] if len(solutes) == 1 and not c.get('aslist') else self.keep_list(solutes, 'solute')
             solv = c['solvent']
             if isinstance(solv, dict):
                 solvent = self.handle_ref([solv['obj']])
@@ -510,7 +515,8 @@ class RecipeRun:
                     return None
             else:
                 solvent = W.rsubs[solv]
-            return lambda: R.create_solution(sol_arg, solvent, c['name'], **c['kwargs'])
+            kw = {kk: (self.keep_list(list(v), kk) if isinstance(v, list) else v) for kk, v in c['kwargs'].items()}
+            return lambda: R.create_solution(sol_arg, solvent, c['name'], **kw)
         if k == 'create_solution_from':
             src = self.handle_ref([c['src']])
             if src is None:
@@ -764,6 +770,11 @@ class RecipeRun:
         return out
 
     # ------------------------------------------------------------------ invariants
+    def keep_list(self, seq, label):
+        if len(self.arg_lists) < 60:
+            self.arg_lists.append((f"{label} of call {self.idx}", seq, list(seq)))
+        return seq
+
     def view(self, obj):
         """What the object says about itself through its observers - "observably unchanged" covers these as well as the
         attributes.  The answers are copied into plain tuples: memoised return values may be shared objects."""
@@ -797,6 +808,11 @@ class RecipeRun:
             if now != fp:
                 self.V('C04', 'recipe_mutated_argument', ('recipe.' + k, 'held-slice'), f"{label} changed: {fp_diff(fp, now)}")
                 self.held[j] = (label, obj, now)
+        for j, (label, seq, snap) in enumerate(self.arg_lists):
+            if len(seq) != len(snap) or any(a is not b for a, b in zip(seq, snap)):
+                self.V('C04', 'argument_list_mutated', ('recipe.' + k, label.split(' of ')[0]),
+                       f"the list passed as {label} held {len(snap)} item(s) when it was handed over and holds {len(seq)} now: {seq!r}")
+                self.arg_lists[j] = (label, seq, list(seq))
         bad = self.W.check_immutability()
         for label, diff in bad:
             self.V('C04', 'recipe_mutated_argument', ('recipe.' + k, 'live-object'), f"{label} changed: {diff}")
@@ -988,6 +1004,49 @@ class RecipeRun:
                            f"{n}: as recipe steps the plate operations gave a different plate than the direct operations: {diff}",
                            kid or self.first_excuse(('C07',)))
         self.stats['probe:bake_compared'] += 1
+        self.check_recipe_conservation(kid)
+
+    def check_recipe_conservation(self, kid):
+        """C01 for transfers made as recipe steps: a program of transfers only neither creates nor loses anything over the
+        declared objects taken together, and a well that no step addresses (as source or destination) keeps its contents."""
+        rep, W = self.rep, self.W
+        if not self.steps or any(s['kind'] != 'transfer' for s in self.steps) or not self.eager_ok:
+            return
+        names = [n for n in self.lc.declared if n in self.baked and self.handles.get(n) is not None]
+        if set(names) != set(self.lc.declared):
+            return
+        before = self.bench.totals([self.handles[n] for n in names])
+        after = self.bench.totals([self.baked[n] for n in names])
+        n_pairs = 0
+        touched = {}
+        for s in self.steps:
+            c = s['call']
+            for ref in (c['src'], c['dst']):
+                o = self.handles.get(ref[0])
+                if isinstance(o, rep.Plate):
+                    cells = M.select(ref[1] if len(ref) > 1 and ref[1] is not None else {'k': 'all'}, (o.n_rows, o.n_columns))[0]
+                    touched.setdefault(ref[0], set()).update(cells)
+                    n_pairs += len(cells)
+                else:
+                    n_pairs += 1
+        ex = kid or self.first_excuse(('C01',))
+        for n in sorted(set(before) | set(after)):
+            x, y = before.get(n, F(0)), after.get(n, F(0))
+            tol = (n_pairs + 1) * 20 * W.units.q + max(x, y) * F(1, 10 ** 12)
+            if abs(x - y) > tol:
+                self.V('C01', 'conservation_recipe', ('bake', 'transfers'),
+                       f"{n}: the declared objects held {float(x):.12g} in all before the recipe and hold {float(y):.12g} after it (storage units)", ex)
+                break
+        else:
+            self.stats['probe:recipe_conservation_checked'] += 1
+        for name, cells in touched.items():
+            h, r = self.handles[name], self.baked[name]
+            for rr in range(h.n_rows):
+                for cc in range(h.n_columns):
+                    if (rr, cc) not in cells and fp_container_contents(h.wells[rr, cc]) != fp_container_contents(r.wells[rr, cc]):
+                        self.V('C01', 'bystander_well_changed', ('bake', 'transfers'),
+                               f"{name}: well ({rr},{cc}) is neither source nor destination of any step but changed", ex)
+                        return
 
     def last_step_kind_touching(self, name):
         for st in reversed(self.steps):
